@@ -39,6 +39,16 @@ def slow_vector_fast(J):
     return np.array([J[0], J[1] - J[2]])
 
 
+def mixed_types(J):
+    """integer zero on the edge of the triangle, a float inside: the result type varies from point to point"""
+    return 0 if min(J) == 0 else float(J[0] * J[1] * J[2])
+
+
+def square_vector(J, d=3):
+    """as many components as there are sampling points in the square cases below"""
+    return np.array([J[0] + i * J[1] - J[2] / (i + 1) for i in range(d)])
+
+
 def quiet(f):
     with contextlib.redirect_stdout(io.StringIO()), contextlib.redirect_stderr(io.StringIO()):
         return f()
@@ -105,6 +115,47 @@ def run(ctx):
                     ctx.impl_violation(f"{name}: parallel result (shape {data.shape}) differs from the serial evaluation (shape {want.shape})", dict(case=name, N=N, n_jobs=nj, fn=fname))
             except Exception as ex:
                 ctx.impl_violation(f"{name}: raised {type(ex).__name__}: {ex}", dict(case=name, N=N, n_jobs=nj, fn=fname))
+            ctx.case((name,), nontrivial=True)
+    # ---- vector-valued functions with exactly as many components as sampling points (a square result block), and results whose type varies from point to point
+    sq = [(pdg.get_triangular_sampling_points(2)[0], 3), (pdg.get_non_symmetric_triangular_sampling_points(2)[0], 4), (np.random.default_rng(7).dirichlet(np.ones(3), size=6), 6)]
+    for P, d in sq:
+        for nj in (1, 3, 16):
+            name = f"compute_phase_diagram(square block {len(P)}x{d}, n_jobs={nj})"
+            try:
+                data = quiet(lambda: pdg.compute_phase_diagram(P, square_vector, dict(d=d), n_jobs=nj))
+                want = np.array([square_vector(J, d) for J in P]).T
+                if data.shape != want.shape or not np.array_equal(data, want):
+                    ctx.impl_violation(f"{name}: parallel result differs from the serial evaluation (component i of point j must be at [i, j])", dict(case=name, N=len(P), d=d, n_jobs=nj))
+            except Exception as ex:
+                ctx.impl_violation(f"{name}: raised {type(ex).__name__}: {ex}", dict(case=name, N=len(P), d=d, n_jobs=nj))
+            ctx.case((name,), nontrivial=True)
+    for samples in (6, 9) if quick else (5, 6, 9, 12):
+        P = pdg.get_non_symmetric_triangular_sampling_points(samples)[0]
+        for nj in (1, 2, 3, 5) if quick else (1, 2, 3, 4, 5, 7, 8, 16):
+            name = f"compute_phase_diagram(mixed result types, samples={samples}, n_jobs={nj})"
+            try:
+                data = quiet(lambda: pdg.compute_phase_diagram(P, mixed_types, {}, n_jobs=nj))
+                want = np.array([mixed_types(J) for J in P]).T
+                if np.shape(data) != want.shape or not np.array_equal(np.asarray(data, dtype=float), want.astype(float)):
+                    ctx.impl_violation(f"{name}: parallel result differs from the serial evaluation in {int(np.sum(np.asarray(data, dtype=float) != want))} entries", dict(case=name, samples=samples, n_jobs=nj))
+            except Exception as ex:
+                ctx.impl_violation(f"{name}: raised {type(ex).__name__}: {ex}", dict(case=name, samples=samples, n_jobs=nj))
+            ctx.case((name,), nontrivial=True)
+    # ---- every call returns fresh objects: overwrite the first result in place, call again
+    for scheme, fn in (("plain", pdg.get_non_symmetric_triangular_sampling_points), ("symmetric", pdg.get_triangular_sampling_points)):
+        for s in (2, 5, 10):
+            name = f"{scheme}(samples={s}) twice"
+            p1, t1 = fn(s)
+            keep = p1.copy(); ntri = 1 if scheme == "plain" else len(t1)
+            try:
+                p1 *= 3
+                if isinstance(t1, list):
+                    del t1[1:]
+            except Exception:
+                pass
+            p2, t2 = fn(s)
+            if not np.array_equal(p2, keep) or (1 if scheme == "plain" else len(t2)) != ntri:
+                ctx.impl_violation(f"{name}: a second call returns different values after the first result was overwritten in place: the calls share state", dict(case=name, scheme=scheme, samples=s))
             ctx.case((name,), nontrivial=True)
     # ---- parallel map
     pts, _ = pdg.get_non_symmetric_triangular_sampling_points(5 if quick else 7)
